@@ -8,6 +8,7 @@ package c02
 import (
 	"fmt"
 	"strings"
+	"time"
 
 	"github.com/blevesearch/bleve/v2"
 	"github.com/blevesearch/bleve/v2/index/scorch"
@@ -40,21 +41,50 @@ const (
 	layPerDoc          // one segment per document
 	layChurn           // per-document segments + a deleted extra doc + one doc deleted and re-indexed + one updated from other content
 	nLayouts
+	// layMergedDisk (scorch, full corpus only): on disk, merging suppressed; a ghost and the first two
+	// thirds of the corpus in per-document batches, ghost deleted, ForceMerge (ONE MERGED segment: 1-hit
+	// postings for fields without term vectors, compacted doc numbers), then the rest as single-document
+	// segments, one of them deleted and re-indexed
+	layMergedDisk = nLayouts
 )
+
+var diskCleanups []func()
 
 var quickOpts = []opt{{"", false, false}, {"none", false, false}, {"", true, true}, {"none", true, false}}
 
-var layoutName = []string{"one-batch", "per-doc", "churn"}
+var layoutName = []string{"one-batch", "per-doc", "churn", "disk:merged+singles"}
 
 // build creates the index holding exactly the documents sel (indexes into the alphabet).
 func build(eng bx.Engine, sel []int, layout int) bleve.Index {
 	m := gen.TextMapping()
-	idx := eng.Mk(m)
 	chk := func(err error) {
 		if err != nil {
 			panic(err)
 		}
 	}
+	if layout == layMergedDisk {
+		idx, cleanup, err := bx.DiskScorch(m, map[string]interface{}{"scorchMergePlanOptions": bx.NoMergePlan})
+		chk(err)
+		diskCleanups = append(diskCleanups, cleanup)
+		chk(idx.Index("ghost", map[string]interface{}{"t": "x y xy yx xyx", "u": "x y", "n": 1.0, "f": true, "d": gen.T0}))
+		cut := len(sel) * 2 / 3
+		for _, i := range sel[:cut] {
+			chk(idx.Index(gen.DocID(i), gen.DocAlphabet[i]))
+		}
+		chk(idx.Delete("ghost"))
+		chk(bx.ForceMergeNow(idx))
+		for _, i := range sel[cut:] {
+			chk(idx.Index(gen.DocID(i), gen.DocAlphabet[i]))
+		}
+		if len(sel) > 1 {
+			i := sel[len(sel)-1]
+			chk(idx.Delete(gen.DocID(i)))
+			chk(idx.Index(gen.DocID(i), gen.DocAlphabet[i]))
+		}
+		bx.Quiesce(idx, 3*time.Second)
+		return idx
+	}
+	idx := eng.Mk(m)
 	switch layout {
 	case layOneBatch:
 		b := idx.NewBatch()
@@ -253,6 +283,10 @@ func Run(r *mc.Run) {
 			jobs = append(jobs, job{e, l})
 			idxs = append(idxs, build(e, all12, l))
 		}
+		if e.Name == "scorch" {
+			jobs = append(jobs, job{e, layMergedDisk})
+			idxs = append(idxs, build(e, all12, layMergedDisk))
+		}
 	}
 	qsFull := append(append([]*ref.Q{}, full...), d3...)
 	r.ParFor(len(qsFull), 0, func(qi int) {
@@ -280,6 +314,9 @@ func Run(r *mc.Run) {
 	setKnob(defaultKnob)
 	for _, i := range idxs {
 		i.Close()
+	}
+	for _, cl := range diskCleanups {
+		cl()
 	}
 	// phase 3: all small corpora
 	r.ParFor(len(subsets), 0, func(si int) {
